@@ -59,6 +59,8 @@ pub fn combo(k: u32, substitutes: &[(String, String)]) -> SDesc {
     d.bits_path = Some(BITS[((k >> 5) & 1) as usize].into());
     d.global_derives = vec!["Debug".into(), "::zz_derive::Encode".into()];
     d.substitutes.extend(substitutes.iter().cloned());
+    // every other combination reaches the generator through the settings' builder methods
+    d.via_builders = (k.count_ones() + k / 64) % 2 == 1;
     d
 }
 
